@@ -20,7 +20,7 @@ from .. import units as U
 from ..bufflow import Sym
 from ..geometry import ShapeFlow
 from .. import permcheck
-from .C01 import flow_check, normal_view, ModView, engine, xsrc
+from .C01 import flow_check, normal_view, unit_view, has_call, ModView, engine, xsrc
 
 CLS = "LayoutSwapper"
 STEP = ("LayoutSwapper._transpose", "LayoutSwapper._transpose_source_intact")
@@ -31,8 +31,53 @@ def view_of(chk, mod, q):
     cache = chk.__dict__.setdefault("_c03_views", {})
     key = (mod.rel, q)
     if key not in cache:
-        cache[key] = normal_view(mod.func(q))
+        cls = q.split(".")[0]
+        want = has_call("Allgather", "Gather", "Allgatherv", "allgather", "gather") if q in STEP else None
+        v = unit_view(mod, cls, q, want=want, normal=True)
+        conv = getaxes_convention(mod)
+        if conv is not None and conv != (0, 1, 0, 1):
+            _canonical_getaxes_calls(v, conv)
+        cache[key] = v
     return cache[key]
+
+
+def getaxes_convention(mod):
+    """(position of the gathered layout among getAxes' arguments, position of the scattered one, position of the gathered-side axis in
+    the returned pair, position of the scattered-side axis): the reference is (0, 1, 0, 1).  Read from the definition: the returned
+    element of the form `<G>.dims_order.index(<S>.dims_order[<other element>])` is the gathered-side axis, G and S are the parameters.
+    None when the definition is not read."""
+    cache = mod.__dict__.setdefault("_c03_getaxes_conv", {})
+    if "v" in cache:
+        return cache["v"]
+    conv = None
+    if mod.has("LayoutSwapper.getAxes"):
+        ga = mod.func("LayoutSwapper.getAxes")
+        params = [a.arg for a in ga.args.args if a.arg != "self"]
+        env = inline_locals(ga)
+        rets = [n for n in ast.walk(ga) if isinstance(n, ast.Return) and n.value is not None]
+        if len(params) == 2 and len(rets) == 1 and isinstance(rets[0].value, ast.Tuple) and len(rets[0].value.elts) == 2:
+            import re
+            for gi in (0, 1):
+                g_, s_ = rets[0].value.elts[gi], rets[0].value.elts[1 - gi]
+                gx = xsrc(g_, {k: v for k, v in env.items() if not (isinstance(s_, ast.Name) and k == s_.id)}).replace(" ", "")
+                m_ = re.fullmatch(r"(\w+)\.dims_order\.index\((\w+)\.dims_order\[" + re.escape(src(s_)) + r"\]\)", gx)
+                if m_ and {m_.group(1), m_.group(2)} == set(params):
+                    conv = (params.index(m_.group(1)), params.index(m_.group(2)), gi, 1 - gi)
+                    break
+    cache["v"] = conv
+    return conv
+
+
+def _canonical_getaxes_calls(fn, conv):
+    """`(x, y) = self.getAxes(A, B)` written in the reference convention `(gathered axis, scattered axis) = getAxes(gathered, scattered)`"""
+    g_arg, s_arg, g_res, s_res = conv
+    for n in ast.walk(fn):
+        if isinstance(n, ast.Assign) and len(n.targets) == 1 and isinstance(n.targets[0], ast.Tuple) and len(n.targets[0].elts) == 2 \
+                and isinstance(n.value, ast.Call) and isinstance(n.value.func, ast.Attribute) and n.value.func.attr == "getAxes" \
+                and len(n.value.args) == 2 and not n.value.keywords:
+            t, a = n.targets[0].elts, n.value.args
+            n.targets[0].elts = [t[g_res], t[s_res]]
+            n.value.args = [a[g_arg], a[s_arg]]
 
 
 def manager_final(chk, o, bdesc, n, path, same):
@@ -431,7 +476,10 @@ class SymArm:
         if isinstance(e, ast.ListComp) and len(e.generators) == 1 and not e.generators[0].ifs and isinstance(e.generators[0].target, ast.Name):
             g = e.generators[0]
             t = g.target.id
-            if isinstance(e.elt, ast.Call) and src(e.elt.func) == "slice" and len(e.elt.args) == 1 and src(e.elt.args[0]) == t:
+            if isinstance(e.elt, ast.Call) and src(e.elt.func) == "slice" and not e.elt.keywords and \
+                    ((len(e.elt.args) == 1 and src(e.elt.args[0]) == t) or
+                     (len(e.elt.args) in (2, 3) and src(e.elt.args[0]) == "0" and src(e.elt.args[1]) == t and
+                      (len(e.elt.args) == 2 or src(e.elt.args[2]) in ("1", "None")))):
                 it = self.val(g.iter)
                 if isinstance(it, SL) and it.kind == "shape":
                     out = SL(it.layout, "slices", {k: SliceV(sp.Integer(0), v) for k, v in it.over.items()})
@@ -500,6 +548,19 @@ class SymArm:
         if isinstance(st, ast.Expr) and isinstance(st.value, ast.Constant):
             return
         if isinstance(st, (ast.Assert, ast.Pass)):
+            return
+        if id(st) in getattr(self, "_induct", {}):
+            x, nxt = self._induct[id(st)]
+            if nxt is None:
+                from ..core import increment_of
+                try:
+                    self.running = dict(getattr(self, "running", {}))
+                    self.running[x] = self.sval(increment_of(st)[1])
+                except Unknown:
+                    pass
+                self.env.pop(x, None)
+            else:
+                self.env[x] = nxt
             return
         if isinstance(st, ast.Assign) and len(st.targets) == 1:
             t, v = st.targets[0], st.value
@@ -601,7 +662,10 @@ class SymArm:
             try:
                 if isinstance(it, ast.Call) and src(it.func) == "enumerate" and len(it.args) == 1 and isinstance(st.target, ast.Tuple) \
                         and len(st.target.elts) == 2 and all(isinstance(x, ast.Name) for x in st.target.elts):
-                    P = self.val(it.args[0])
+                    try:
+                        P = self.val(it.args[0])
+                    except Unknown:
+                        P = None
                     if isinstance(P, Pieces):
                         i = self.atom("i")
                         trip = P.m if P.drop_last else P.m + 1
@@ -610,17 +674,26 @@ class SymArm:
                 elif isinstance(it, ast.Call) and src(it.func) == "range" and len(it.args) == 1 and isinstance(st.target, ast.Name):
                     trip = self.sval(it.args[0])
                     self.env[st.target.id] = self.atom("i")
+                if trip is None:
+                    trip = self.table_loop(st)
             except Unknown:
                 trip = None
             if trip is None:
                 self.havoc(st)
                 self.notes.append(f"loop `for {src(st.target)} in {src(st.iter)[:40]}` not recognised as a loop over the ranks")
                 return
-            # what the body rebinds is unknown at the top of an iteration until it is bound again
+            # what the body rebinds is unknown at the top of an iteration until it is bound again - except a running total that is
+            # advanced by a loop-invariant amount once in every iteration: its value in iteration i is known in closed form
             tgt_names = {x.id for x in ast.walk(st.target) if isinstance(x, ast.Name)}
+            induct = self.induction_variables(st, tgt_names)
             for n in ast.walk(ast.Module(body=st.body, type_ignores=[])):
-                if isinstance(n, ast.Name) and isinstance(n.ctx, ast.Store) and n.id not in tgt_names and n.id in self.env:
+                if isinstance(n, ast.Name) and isinstance(n.ctx, ast.Store) and n.id not in tgt_names and n.id in self.env and n.id not in induct:
                     self.env[n.id] = CARRIED
+            for x, (c0, c, inc_st) in induct.items():
+                self.env[x] = sp.expand(c0 + self.atom("i") * c) if c is not None else sp.expand(c0 + self.atom(f"running_total({x})"))
+            self._induct = dict(getattr(self, "_induct", {}))
+            for x, (c0, c, inc_st) in induct.items():
+                self._induct[id(inc_st)] = (x, sp.expand(c0 + (self.atom("i") + 1) * c) if c is not None else None)
             for n in st.body:
                 for s_ in ast.walk(n):
                     if isinstance(s_, ast.Assign) and isinstance(s_.targets[0], ast.Subscript) and isinstance(s_.targets[0].value, ast.Name) \
@@ -634,6 +707,11 @@ class SymArm:
             self.run(st.body)
             self.loop = outer
             self.havoc(st, keep_lists=True)
+            for x, (c0, c, inc_st) in induct.items():
+                if c is not None:
+                    self.env[x] = sp.expand(c0 + trip * c)
+                else:
+                    self.env.pop(x, None)
             return
         if isinstance(st, ast.If):
             self.conds.append(st)
@@ -642,6 +720,68 @@ class SymArm:
         if isinstance(st, ast.Return):
             return
         self.havoc(st)
+
+    def table_loop(self, st):
+        """`for a, b in zip(T1, T2)` / `for k, (a, b) in enumerate(zip(T1, T2))` / `for a in T` over per-rank tables of a layout: the
+        element names stand for `T[i]`; -> trip count (the number of ranks along that axis), or None"""
+        from .C01 import loop_index
+        idx, elems = loop_index(st)
+        if not elems:
+            return None
+        trips = set()
+        bound = {}
+        for nm, seq in elems.items():
+            try:
+                t = self.ctext(seq).replace(" ", "")
+            except Unknown:
+                return None
+            import re
+            m_ = re.fullmatch(r"(layout_source|layout_dest)\.(mpi_starts|mpi_lengths)\((\w+)\)", t)
+            if not m_:
+                return None
+            lay, ax = m_.group(1), m_.group(3)
+            trips.add((lay, ax))
+            bound[nm] = self.atom(f"{t}[i]")
+        if len(trips) != 1:
+            return None
+        lay, ax = next(iter(trips))
+        self.env.update(bound)
+        if idx is not None:
+            self.env[idx] = self.atom("i")
+        # one entry per rank of the communicator of that axis (how the tables are built: C02 P2-table-shape / P2-one-table)
+        return self.atom(f"self._managers[self._handlers[{lay}.name]].communicators[{ax}].Get_size()")
+
+    def induction_variables(self, loop, tgt_names):
+        """{x: (value before the loop, step, the statement that advances it)} for every local that is a number before the loop and whose
+        only binding in the body is one `x += step` / `x = x + step` at the top level of the body, step not changed by the body, no
+        `continue` before it"""
+        from ..core import increment_of
+        out = {}
+        stored = {}
+        for b_ in loop.body:
+            for n in ast.walk(b_):
+                if isinstance(n, ast.Name) and isinstance(n.ctx, ast.Store):
+                    stored[n.id] = stored.get(n.id, 0) + 1
+        for pos, b_ in enumerate(loop.body):
+            inc = increment_of(b_) if isinstance(b_, (ast.Assign, ast.AugAssign)) else None
+            if inc is None:
+                continue
+            x, step = inc
+            if stored.get(x) != 1 or x in tgt_names or not isinstance(self.env.get(x), self.sp.Basic):
+                continue
+            if any(isinstance(n, (ast.Continue, ast.Break)) for prev in loop.body[:pos] for n in ast.walk(prev)):
+                continue
+            if any(isinstance(n, ast.Name) and n.id in stored for n in ast.walk(step)):
+                # the amount changes from one iteration to the next: a running total, known only as such; the amount added in
+                # iteration i is read when the statement is reached (self.running)
+                out[x] = (self.env[x], None, b_)
+                continue
+            try:
+                c = self.sval(step)
+            except Unknown:
+                continue
+            out[x] = (self.env[x], c, b_)
+        return out
 
     def havoc(self, st, keep_lists=False):
         for n in ast.walk(st):
@@ -700,6 +840,53 @@ def _read_arm(fn, node):
     return A
 
 
+def _linear_paths(stmts, limit=6):
+    """the statement list with its top-level `if` statements resolved one way or the other: [([(test, polarity)], [statements])];
+    None when there would be more than `limit` paths"""
+    paths = [([], [])]
+    for st in stmts:
+        if isinstance(st, ast.If):
+            arms = [(True, st.body), (False, st.orelse)]
+            new = []
+            for conds, done in paths:
+                for pol, body in arms:
+                    sub = _linear_paths(body, limit)
+                    if sub is None:
+                        return None
+                    for c2, s2 in sub:
+                        new.append((conds + [(st.test, pol)] + c2, done + s2))
+            paths = new
+            if len(paths) > limit:
+                return None
+        else:
+            paths = [(c, d + [st]) for c, d in paths]
+    return paths
+
+
+def _read_arm_paths(fn, node):
+    """one SymArm per way through the `if` statements of the arm that contains `node` (A.path = the tests assumed), or None"""
+    r = arm_of(fn, node)
+    if r is None:
+        return None
+    prefix, arm = r
+    paths = _linear_paths(arm)
+    if paths is None:
+        paths = [([], arm)]
+    out = []
+    for conds, stmts in paths:
+        A = SymArm(fn)
+        A.run(prefix)
+        A.conds, A.notes, A.stores, A.gathers = [], [], [], []
+        A.run(stmts)
+        A.path = conds
+        out.append(A)
+    return out
+
+
+def _path_text(A):
+    return " and ".join(("" if pol else "not ") + "(" + src(t)[:60] + ")" for t, pol in getattr(A, "path", []))
+
+
 def _eq(a, b):
     import sympy
     try:
@@ -729,10 +916,40 @@ def gather_geometry(chk, mod, q, recv_name):
            if okr else f"`{c.func.attr}` delivers the blocks to the root rank only: the other replicas keep stale data" if okr is False
            else f"collective `{c.func.attr}` not modelled", file=rel, func=q)
     out = "source" if recv_name == "dest" else "dest"
-    A = _read_arm(fn, c)
-    if A is None or len(A.gathers) != 1:
+    arms = _read_arm_paths(fn, c)
+    if not arms or any(len(A.gathers) != 1 for A in arms):
         chk.ob(rule, c, f"gather arm of {q.split('.')[-1]}", None, "the arm containing the gather could not be isolated", file=rel, func=q)
         return
+    bad, und = [], []
+    for A in arms:
+        b_, u_ = _judge_gather_path(A, recv_name, out)
+        where = _path_text(A)
+        bad += [(f"when {where}: " if where else "") + x for x in b_]
+        und += [(f"when {where}: " if where else "") + x for x in u_]
+    ok = not bad and not und
+    o = chk.pat(rule, c, f"gather arm of {q.split('.')[-1]}", ok, what, "; ".join(dict.fromkeys(bad)) or None, file=rel, func=q)
+    if not ok and not bad:
+        o.msg = "the gather arm could not be read completely: " + "; ".join(dict.fromkeys(und))[:600]
+
+
+def _whole_buffer_views(A, recv_name, out):
+    """stores outside the per-rank loop that fill the result from ONE reshaped view of (a prefix of) the receive buffer:
+    [(statement, shape list of that view)]"""
+    found = []
+    for st_, tv, rv, loop in A.stores:
+        if loop is not None or not isinstance(rv, Tr):
+            continue
+        x = rv.x.view if isinstance(rv.x, SubV) else rv.x
+        if isinstance(x, View) and isinstance(x.buf, (Buf, Whole)) and x.buf.root == recv_name:
+            tgt = tv.view if isinstance(tv, SubV) else tv
+            if isinstance(tgt, View) and getattr(tgt.buf, "root", None) == out:
+                found.append((st_, x.shape))
+    return found
+
+
+def _judge_gather_path(A, recv_name, out):
+    """(diagnoses, things not followed) of one way through the gather arm"""
+    import sympy
     bad, und = [], []
     at = A.atom
     # ---- the specification, in the vocabulary of the arm
@@ -786,6 +1003,13 @@ def gather_geometry(chk, mod, q, recv_name):
             else:
                 und.append(f"{role} count `{b.hi}` (expected {want_hi})")
     # ---- shortcuts decided by this rank's own block
+    for test, pol in getattr(A, "path", []):
+        cmp_ = [x for x in ast.walk(test) if isinstance(x, ast.Compare) and "max_block_shape" in src(x) and
+                (".shape" in src(x) or "mpi_lengths" in src(x))]
+        if cmp_:
+            bad.append(f"`{src(cmp_[0])}` compares this rank's own block length with the padded length to decide how the gathered buffer is "
+                       "read: on an uneven distribution the ranks holding a full-size block take the 'no padding' path although the shorter "
+                       "blocks of the other ranks arrive padded - the padding is read as data, and the ranks disagree on the result")
     for cnd in A.conds:
         cmp_ = [x for x in ast.walk(cnd.test) if isinstance(x, ast.Compare) and "max_block_shape" in src(x) and
                 (".shape" in src(x) or "mpi_lengths" in src(x))]
@@ -797,7 +1021,22 @@ def gather_geometry(chk, mod, q, recv_name):
             und.append(f"branch `if {src(cnd.test)[:50]}` inside the gather arm")
     # ---- the unpack loop
     loop_stores = [s_ for s_ in A.stores if s_[3] is not None]
-    if len(loop_stores) != 1:
+    whole = _whole_buffer_views(A, recv_name, out)
+    if whole:
+        # all received blocks read through ONE view of the receive buffer instead of rank by rank
+        for st_, shp in whole:
+            pos = sorted(shp.over)
+            send = specs[0][0] if specs else None
+            plain_send = isinstance(send, Buf) and send.root == "source" and _eq(send.lo, 0)
+            if shp.layout == "layout_source" and pos == ["idx_s"] and plain_send:
+                bad.append(f"`{src(st_)[:70]}` reads all received blocks through one view of shape `{shp}`: the receive buffer holds the blocks of "
+                           "the ranks one after the other (block-major), which is the field concatenated ALONG axis idx_s of the source block "
+                           "only if idx_s is the first (slowest) axis of that block; the swapper sends the blocks as they lie in memory, without "
+                           "moving the gathered axis to the front, so for any other idx_s the elements of different ranks are interleaved wrongly "
+                           "(silently: all shapes agree)")
+            else:
+                und.append(f"`{src(st_)[:60]}` reads all received blocks through one view of shape `{shp}`")
+    elif len(loop_stores) != 1:
         if not any("compares this rank's own block" in b_ for b_ in bad):
             und.append(f"{len(loop_stores)} array stores in the unpack loop (1 expected)" + ("; " + "; ".join(A.notes[:3]) if A.notes else ""))
     else:
@@ -859,6 +1098,17 @@ def gather_geometry(chk, mod, q, recv_name):
                     else:
                         und.append(f"chunk shape `{shp}`")
                 b = x.buf
+                # a running offset: what it is advanced by in every iteration decides what it is in iteration i
+                for rx, amount in getattr(A, "running", {}).items():
+                    rt = at(f"running_total({rx})")
+                    if b.lo is not None and rt in getattr(b.lo, "free_symbols", ()):
+                        if _eq(amount, B):
+                            b = Buf(b.root, b.lo.subs(rt, B * at("i")), b.hi.subs(rt, B * at("i")) if b.hi is not None else None)
+                        elif _eq(amount, n_i):
+                            bad.append(f"the chunk of rank i is read at a running offset that is advanced by the TRUE size of each block "
+                                       f"(`{amount}`): every rank's block occupies a slot of the padded size {B} in the receive buffer, so for uneven "
+                                       "blocks the chunks after the first short block are read from the wrong offsets")
+                            b = Buf(b.root, B * at("i"), B * at("i") + n_i)
                 if b.root != recv_name:
                     (bad if b.root in ("source", "dest", "buf") else und).append(f"the chunks are read from `{b.root}` but were received in `{recv_name}`")
                 elif not _eq(b.lo, B * at("i")):
@@ -873,10 +1123,7 @@ def gather_geometry(chk, mod, q, recv_name):
                 und.append("value stored in the unpack loop" + ("; " + "; ".join(A.notes[:2]) if A.notes else ""))
         else:
             und.append("value stored in the unpack loop" + ("; " + "; ".join(A.notes[:2]) if A.notes else ""))
-    ok = not bad and not und
-    o = chk.pat(rule, c, f"gather arm of {q.split('.')[-1]}", ok, what, "; ".join(dict.fromkeys(bad)) or None, file=rel, func=q)
-    if not ok and not bad:
-        o.msg = "the gather arm could not be read completely: " + "; ".join(dict.fromkeys(und))[:600]
+    return bad, und
 
 
 def scatter_geometry(chk, mod, q):
@@ -991,7 +1238,7 @@ def init_buffer(chk, mod):
     rel = mod.rel
     handler_buffer(chk, mod)
     q = "LayoutSwapper.__init__"
-    fn = mod.func(q)
+    fn = view_of(chk, mod, q)
     env = inline_locals(fn)
     # ---- covers the largest handler buffer
     stores = [n for n in ast.walk(fn) if isinstance(n, ast.Assign) and any(src(t) == "self._buffer_size" for t in n.targets)]
@@ -1223,6 +1470,8 @@ def run(chk):
     scatter_geometry(chk, mod, "LayoutSwapper._transpose")
     scatter_geometry(chk, mod, "LayoutSwapper._transpose_source_intact")
     init_buffer(chk, mod)
+    from .C01 import payload_dtype
+    payload_dtype(chk, mod, CLS)
     views = ModView(mod, {q: view_of(chk, mod, q) for q in STEP})
     engine(chk, "P1-transpose-permutation", mod.func(STEP[0]), "permutation typing of the swapper's array stores",
            permcheck.check_layout_swapper, chk, views, file=U.LAYOUT, func=STEP[0])
@@ -1255,37 +1504,80 @@ def run(chk):
 
 
 def getaxes_definition(chk, mod):
+    """getAxes(G, S): (position in G's ordering of the dimension on S's extra process axis, that process axis).  Read in three steps,
+    each in the forms it can be written in: the candidate list (S's communicators with those G also has struck out), the first
+    candidate left, the returned pair."""
     ga = mod.func("LayoutSwapper.getAxes")
-    okga = contains(ga, """
-handlerG = self._managers[self._handlers[layout_gathered.name]]
-handlerS = self._managers[self._handlers[layout_scattered.name]]
-possComms = list(handlerS.communicators)
-for c in handlerG.communicators:
-    if c in possComms:
-        i = possComms.index(c)
-        possComms[i] = None
-idx_s = np.nonzero(np.array(possComms) != None)[0][0]
-idx_g = layout_gathered.dims_order.index(layout_scattered.dims_order[idx_s])
-return (idx_g, idx_s)
-""")
-    bad = None
-    if not okga:
-        bad = comm_identity_diagnosis(ga)
-    if not okga and bad is None:
-        # the same computation with other temporaries: the returned pair, written out
-        env = inline_locals(ga)
-        rets = [n for n in ast.walk(ga) if isinstance(n, ast.Return) and n.value is not None]
-        if len(rets) == 1 and isinstance(rets[0].value, ast.Tuple) and len(rets[0].value.elts) == 2:
+    env = inline_locals(ga)
+    bad = comm_identity_diagnosis(ga)
+    und = []
+    rets = [n for n in ast.walk(ga) if isinstance(n, ast.Return) and n.value is not None]
+    okga = None
+    if bad is None:
+        if not (len(rets) == 1 and isinstance(rets[0].value, ast.Tuple) and len(rets[0].value.elts) == 2):
+            und.append("the returned pair")
+        else:
+            conv = getaxes_convention(mod)
             g_, s_ = rets[0].value.elts
-            sx = xsrc(s_, env).replace(" ", "")
-            gx = xsrc(g_, {k: v for k, v in env.items() if not (isinstance(s_, ast.Name) and k == s_.id)}).replace(" ", "")
+            if conv is not None and conv[2] == 1:
+                s_, g_ = g_, s_          # the pair is returned as (scattered-side axis, gathered-side axis): the callers are read accordingly
             sn = src(s_)
+            gx = xsrc(g_, {k: v for k, v in env.items() if not (isinstance(s_, ast.Name) and k == s_.id)}).replace(" ", "")
+            # (3) the gathered-side position
             if gx == f"layout_scattered.dims_order.index(layout_gathered.dims_order[{sn}])":
                 bad = (f"the first result is `{xsrc(g_, env)}`: a position in the SCATTERED ordering; callers use it to address the gathered layout's "
                        "view, which needs the position of the scattered dimension in the GATHERED ordering")
-            elif gx == f"layout_gathered.dims_order.index(layout_scattered.dims_order[{sn}])" and \
-                    sx == "np.nonzero(np.array(list(handlerS.communicators))!=None)[0][0]":
-                bad = "no communicator of the gathered handler is removed from the candidates: the first process axis is returned whatever the handlers share"
-    chk.pat("A1-getaxes-definition", ga, "getAxes", okga,
-            "returns (axis of the gathered layout carrying the scattered dimension, process axis of the scattered handler "
-            "whose communicator the gathered handler lacks)", bad, file=U.LAYOUT, func="LayoutSwapper.getAxes")
+            elif gx != f"layout_gathered.dims_order.index(layout_scattered.dims_order[{sn}])":
+                und.append(f"first result `{gx[:70]}`")
+            # (2) the scattered-side axis: the first candidate that was not struck out
+            sdef = env.get(s_.id) if isinstance(s_, ast.Name) else s_
+            cand = None
+            if sdef is not None:
+                t = src(sdef).replace(" ", "")
+                import re
+                for pat_ in (r"np\.nonzero\(np\.array\((\w+)\)!=None\)\[0\]\[0\]",
+                             r"next\(\((\w+)for\1,(\w+)inenumerate\((\w+)\)if\2isnotNone\)\)",
+                             r"next\((\w+)for\1,(\w+)inenumerate\((\w+)\)if\2isnotNone\)",
+                             r"\[(\w+)isnotNonefor\1in(\w+)\]\.index\(True\)",
+                             r"\[(\w+)for\1,(\w+)inenumerate\((\w+)\)if\2isnotNone\]\[0\]"):
+                    m_ = re.fullmatch(pat_, t)
+                    if m_:
+                        cand = m_.groups()[-1]
+                        break
+            if cand is None:
+                und.append(f"second result `{src(sdef)[:70] if sdef is not None else sn}` (expected: the first position of the candidate list that is not None)")
+            else:
+                # (1) the candidate list
+                ok1 = contains(ga, f"""
+{cand} = list(handlerS.communicators)
+for c in handlerG.communicators:
+    if c in {cand}:
+        i = {cand}.index(c)
+        {cand}[i] = None
+""", vars=("c", "i")) or contains(ga, f"""
+{cand} = list(handlerS.communicators)
+for c in handlerG.communicators:
+    if c in {cand}:
+        {cand}[{cand}.index(c)] = None
+""", vars=("c",)) or contains(ga, f"{cand} = [None if c in handlerG.communicators else c for c in handlerS.communicators]", vars=("c",)) or \
+                    contains(ga, f"{cand} = [c if c not in handlerG.communicators else None for c in handlerS.communicators]", vars=("c",))
+                hS = xsrc(ast.parse("handlerS", mode="eval").body, env).replace(" ", "")
+                hG = xsrc(ast.parse("handlerG", mode="eval").body, env).replace(" ", "")
+                if not ok1:
+                    cdef = env.get(cand)
+                    if cdef is not None and src(cdef).replace(" ", "") == "list(handlerS.communicators)" and \
+                            not any(isinstance(n, ast.Assign) and isinstance(n.targets[0], ast.Subscript) and src(n.targets[0].value) == cand for n in ast.walk(ga)):
+                        bad = "no communicator of the gathered handler is removed from the candidates: the first process axis is returned whatever the handlers share"
+                    else:
+                        und.append("construction of the candidate list")
+                if hS != "self._managers[self._handlers[layout_scattered.name]]" or hG != "self._managers[self._handlers[layout_gathered.name]]":
+                    if hS == "self._managers[self._handlers[layout_gathered.name]]" and hG == "self._managers[self._handlers[layout_scattered.name]]":
+                        bad = bad or "the roles of the two handlers are exchanged: the candidates are the GATHERED handler's communicators"
+                    else:
+                        und.append("the two handlers")
+        okga = bad is None and not und
+    o = chk.pat("A1-getaxes-definition", ga, "getAxes", okga,
+                "returns (axis of the gathered layout carrying the scattered dimension, process axis of the scattered handler "
+                "whose communicator the gathered handler lacks)", bad, file=U.LAYOUT, func="LayoutSwapper.getAxes")
+    if not okga and not bad:
+        o.msg = "getAxes could not be read completely: " + "; ".join(und)
